@@ -55,16 +55,43 @@ func (g *bundleGen) addRootOp(p string, schema obj) {
 func (g *bundleGen) plantPlus() {
 	r := g.r
 	rd := g.docs[0]
+	lonelyDangling := false
 	if g.on("plusDangling") {
+		// sometimes the dangling $ref is (nearly) all there is: nothing else keeps a definition alive, so that with
+		// RemoveUnused - or with no definitions at all - the document reaches the end of Flatten with an empty definitions section
+		lonelyDangling = r.P(35)
 		ref := obj{"$ref": "#/definitions/MissingDef"}
-		if len(g.docs) > 1 && r.P(50) {
+		if len(g.docs) > 1 && r.P(50) && !(lonelyDangling && r.P(70)) {
 			ref = obj{"$ref": refTo(rd, g.docs[1], "definitions", "MissingRemoteDef")}
 		}
-		if r.P(50) {
+		if r.P(50) && !(lonelyDangling && r.P(70)) {
 			g.addRootDef("hasDangling", obj{"type": "object", "properties": obj{"gone": ref}})
 			g.addRootOp("/dangling", obj{"$ref": "#/definitions/hasDangling"})
 		} else {
 			g.addRootOp("/dangling", ref)
+		}
+	}
+	if g.on("plusDanglingPart") {
+		// a $ref to an OPTIONAL part which its target does not have: in the spec model these positions are nil pointers of
+		// a pointer type (items, additionalProperties, additionalItems, the schema of a response), not missing map keys
+		g.addRootDef("partless", obj{"type": "object", "properties": obj{"p": obj{"type": "string"}}})
+		rd.paths["/partless"] = obj{"get": obj{"responses": obj{"204": obj{"description": "none"}}}}
+		targets := [][]string{
+			{"definitions", "partless", "items"},
+			{"definitions", "partless", "additionalProperties"},
+			{"definitions", "partless", "additionalItems"},
+			{"definitions", "partless", "properties", "p", "items"},
+			{"paths", "/partless", "get", "responses", "204", "schema"},
+		}
+		ref := obj{"$ref": mkRef("", targets[r.Intn(len(targets))]...)}
+		switch r.Intn(3) {
+		case 0:
+			g.addRootDef("hasDanglingPart", obj{"type": "object", "properties": obj{"gone": ref}})
+			g.addRootOp("/danglingpart", obj{"$ref": "#/definitions/hasDanglingPart"})
+		case 1:
+			g.addRootDef("hasDanglingPart", obj{"type": "array", "items": ref})
+		default:
+			g.addRootOp("/danglingpart", ref)
 		}
 	}
 	if g.on("plusMissingFile") {
@@ -231,6 +258,21 @@ func (g *bundleGen) plantPlus() {
 				g.addRootDef("opPtr", obj{"$ref": mkRef("", "info")})
 			case 2:
 				g.addRootOp("/opptr", obj{"$ref": mkRef("", "paths", p, "get")})
+			}
+		}
+	}
+	if lonelyDangling {
+		for _, p := range sortedKeys(rd.paths) {
+			if p != "/dangling" && p != "/dangling/{id}" {
+				delete(rd.paths, p)
+			}
+		}
+		rd.params, rd.responses, rd.pathItems = obj{}, obj{}, obj{}
+		if r.P(50) {
+			for _, n := range sortedKeys(rd.defs) {
+				if n != "hasDangling" {
+					delete(rd.defs, n)
+				}
 			}
 		}
 	}
@@ -453,7 +495,7 @@ func evalFailsafe(c *Case) *Verdict {
 		return v
 	}
 	if api == "Flatten" && base.status == "ok" && !c.Opts.ContinueOnError {
-		if hasFeature(c, "plusDangling") || hasFeature(c, "plusMissingFile") {
+		if hasFeature(c, "plusDangling") || hasFeature(c, "plusMissingFile") || hasFeature(c, "plusDanglingPart") {
 			sig := "dangling-local-or-remote"
 			if hasFeature(c, "plusMissingFile") {
 				sig = "missing-file"
